@@ -907,6 +907,22 @@ impl Sim {
         // Each oracle runs whatever the others found: a check reports the findings of its own
         // property only.
         self.check_lookups(r, &format!("{ctx} (after injected disk error)"), &shadow);
+        // C04 / C09: the advertised head and the head set still describe the committed graph.
+        if let Some(gid) = self.gid {
+            let want_heads = self.g.frontier(&shadow);
+            let want_hello = self.model_hello(&want_heads);
+            if let crate::replica::Guarded::Done(Ok(a)) = with_rep!(&mut self.reps[r], rep => rep.hello_head(gid)) {
+                if a != want_hello {
+                    self.violation("C04", "C04.hello-head", "hello-head", format!("{ctx} (after injected disk error): replica {r} advertises {}@{} but its committed graph collapses to {}@{}", short(&a.id), a.max_cut, short(&want_hello.id), want_hello.max_cut));
+                }
+            }
+            if let Ok(h) = with_rep!(&mut self.reps[r], rep => rep.heads(gid)) {
+                let ids: Vec<CmdId> = h.iter().map(|x| x.id).collect();
+                if ids != want_heads {
+                    self.violation("C09", "C09.frontier", "heads-not-frontier", format!("{ctx} (after injected disk error): replica {r} heads {:?} != frontier of the committed set {:?}", ids.iter().map(short).collect::<Vec<_>>(), want_heads.iter().map(short).collect::<Vec<_>>()));
+                }
+            }
+        }
         // C19: what the replica answers to hello notifications still follows its committed graph.
         for p in 0..self.reps.len() {
             if p != r && !self.crashed[p] && self.has_graph(p) {
